@@ -583,13 +583,19 @@ pub fn c12_strategy(ctx: &Ctx) -> BoxedStrategy<C12Case> {
       if late {
         threads.push(vec![Action::Subscribe(1)]);
       }
+      // r3 arrives when everything is quiet again (50 ms of virtual time later): whatever the
+      // races before it did to the stored history / latest value, it is judged by the full
+      // rules - its subscribe overlaps no push
+      if pre % 2 == 0 {
+        threads.push(vec![Action::Advance(50), Action::Subscribe(3)]);
+      }
       let mut root = Node::Src(0, Src::Hot(0));
       root.renumber();
       let case = Case {
         root,
         hots: vec![kind.clone()],
         hot_illformed: false, conn: None, conn_take: None,
-        recorders: vec![vec![], vec![], vec![]],
+        recorders: vec![vec![], vec![], vec![], vec![]],
         actions: pre_actions,
       };
       C12Case { cc: ConcCase { case, threads, sched }, kind: format!("{:?}", kind), weak_late }
@@ -627,7 +633,7 @@ fn c12_check(_ctx: &Ctx, c: &C12Case) -> Report {
   };
   let is_replay = c.kind.starts_with("Replay");
   let is_behavior = c.kind.starts_with("Behavior");
-  for k in 0..3 {
+  for k in 0..r.log.sub_marks.len().min(4) {
     let (sub_call, sub_ret) = match r.log.sub_marks[k] {
       Some(m) => m,
       None => continue,
@@ -635,6 +641,9 @@ fn c12_check(_ctx: &Ctx, c: &C12Case) -> Report {
     let evs = ordered(&r.log.recs[k]);
     let got: Vec<i64> = items_of(&evs).iter().map(|p| p.as_i64()).collect();
     let unsub = r.log.unsub_marks[k].first().copied();
+    if k == 3 {
+      rep.classes.push("subscriber-after-everything-is-quiet".into());
+    }
     if k == 1 && c.weak_late {
       // K01 / K02 open: a racing late subscriber may see a gap or a duplicate (Behavior) or
       // duplicates / reordering (Replay). What must still hold: only pushed values arrive;
@@ -1057,6 +1066,49 @@ fn c09_check_impl(c: &C09Case, c05_only: bool) -> Report {
   rep
 }
 
+/// C06 across threads: when the subscriber has unsubscribed and everything has come to rest,
+/// no source that was (or was later) subscribed on behalf of that subscription is left
+/// subscribed - also a source that subscribe_on subscribes on its worker only after the
+/// unsubscribe. (Not asserted: that the source sees the end at its very next attempt after
+/// unsubscribe() returned. C06 does not quantify over interleavings, and the crate lets a
+/// scheduler thread that noticed the end first finish the upstream teardown while the
+/// caller's unsubscribe() has already returned.)
+pub fn c06_conc_check(_ctx: &Ctx, c: &C09Case) -> Report {
+  let r = run_cc(&c.cc, 5_000);
+  let mut rep = Report::ok();
+  rep.classes = super::seq_inv::op_classes(&c.cc.case);
+  rep.classes.push(if c.hot { "source:emitter-thread".into() } else { "source:synchronous".into() });
+  rep.sample = Some(render_cc(&c.cc, &r));
+  if let Some(k) = hung(&r) {
+    rep.classes.push(format!("aborted:{}", k));
+    return rep;
+  }
+  let (ucall, uret) = match r.log.unsub_marks[0].first() {
+    Some(&m) => m,
+    None => return rep,
+  };
+  let fail = |m: String| Some(format!("{} | {}", m, render_cc(&c.cc, &r)));
+  for p in &r.log.probes {
+    if p.final_sub {
+      rep.fail = fail(format!(
+        "source #{} (subscribed at stamp {}) is still subscribed when everything has come to rest, although the subscriber's unsubscribe() returned at stamp {}",
+        p.sid, p.at, uret
+      ));
+      return rep;
+    }
+  }
+  let subscribed_after = r.log.probes.iter().any(|p| p.at > ucall);
+  let still_had_events = r.log.probes.iter().any(|p| p.attempts.iter().any(|a| a.stamp > ucall));
+  if subscribed_after {
+    rep.classes.push("source-subscribed-after-the-unsubscribe-call".into());
+  }
+  if r.log.probes.is_empty() {
+    rep.classes.push("source-never-subscribed".into());
+  }
+  rep.nontrivial = subscribed_after || still_had_events;
+  rep
+}
+
 fn c09_check(_ctx: &Ctx, c: &C09Case) -> Report {
   c09_check_impl(c, false)
 }
@@ -1188,7 +1240,7 @@ pub fn properties() -> Vec<Property> {
     },
     Property {
       id: "C12",
-      rule: "cases = 1..2 producer threads pushing unique items into a Subject / BehaviorSubject / ReplaySubject, an observer subscribed throughout, optionally one subscribing from its own thread and one unsubscribing from its own thread, 0..4 items pushed beforehand, generated schedule; oracle = exactly-once, per-producer gap-free runs in order, nothing lost while subscribed, nothing after unsubscribe returned, replay completeness in push order, behavior: a value then every later value; non-trivial = the subscribe / unsubscribe call overlapped a push",
+      rule: "cases = 1..2 producer threads pushing unique items into a Subject / BehaviorSubject / ReplaySubject, an observer subscribed throughout, optionally one subscribing from its own thread and one unsubscribing from its own thread, in half of the cases one more subscribing 50 ms (virtual) after everything else, 0..4 items pushed beforehand, generated schedule; oracle = exactly-once, per-producer gap-free runs in order, nothing lost while subscribed, nothing after unsubscribe returned, replay completeness in push order, behavior: a value then every later value; non-trivial = the subscribe / unsubscribe call overlapped a push",
       assumptions: vec!["push order = order of the producers' call/return stamps; overlapping pushes may be observed in either order"],
       subs: vec![mk_sub("subjects", (800, 15_000), c12_strategy, c12_check)],
     },
